@@ -11,6 +11,8 @@
 
   Tokens: scalar `a,b,c,d/k` = (a + bζ + cζ² + dζ³)/2^k; every list length-prefixed;
   wire `b2` / `q2`; cqty = <dims classical> <dims quantum>; mat = r c entries.
+  Boxes: `N dom cod mat` = not mixed, with an array (the model decides classical / quantum as
+  Box.__init__ does); `K` / `P` force the classical / quantum reading.
 -/
 import Driver.Codec
 import Model.CQ
@@ -62,6 +64,12 @@ def cbox : P (CBox D8) := do
   | "S" => do let m ← bool; let z ← scal; pure (.scalar m z)
   | "K" => do let d ← wty; let c ← wty; let u ← mat; pure (.classical d c u)
   | "P" => do let d ← wty; let c ← wty; let u ← mat; pure (.quantum d c u)
+  | "N" => do
+    -- a box that is not mixed: the model decides `classical` as Box.__init__ does
+    let d ← wty; let c ← wty; let u ← mat
+    match CBox.ofNonMixed d c u with
+    | .ok b => pure b
+    | .error _ => throw "non-mixed box on bits and qubits (ValueError in Box.__init__)"
   | "A" => do let d ← wty; let c ← wty; let u ← mat; pure (.mixedArr d c u)
   | "W" => do let l ← wty; let r ← wty; pure (.swap l r)
   | _ => throw s!"bad box kind {t}"
